@@ -15,7 +15,7 @@ LEVEL_TEXT = ("Static structural proof of necessary conditions: (R4.1) in the fu
               "validators no branch condition or comparison depends on a spelling-dependent accessor (org_tag, "
               "org_base_tag, tag, the original string), which may flow only into messages and index arithmetic. "
               "Invariance itself (a relation between two runs) and blank-insensitivity of the delimiter scan are NOT decided.")
-LEVEL_EXTRA = "Added after the seeded evaluation: (R4.3) blank-stripped delimiter scan; (R4.4) the validators' sibling loops carry no conditionally assigned state from one sibling to the next (one frozen exception); (R4.5) 'is a top-level group' is decided by identity, not order-sensitive equality; (R4.6) a reporting loop is left by `break` only after a report in the same iteration. (R4.7) HedTag.__eq__ folds case on every form it compares, as __hash__ does. (R4.8) the string-level validators store nothing on self outside their constructors."
+LEVEL_EXTRA = "Added after the seeded evaluation: (R4.3) blank-stripped delimiter scan; (R4.4) the validators' sibling loops carry no conditionally assigned state from one sibling to the next (one frozen exception); (R4.5) 'is a top-level group' is decided by identity, not order-sensitive equality; (R4.6) a reporting loop is left by `break` only after a report in the same iteration. (R4.7) HedTag.__eq__ folds case on every form it compares, as __hash__ does. (R4.8) the string-level validators store nothing on self outside their constructors. (R4.9) an issue list that is being accumulated is never plainly re-assigned before it was read."
 
 SPELLING_ATTRS = {"org_tag", "org_base_tag", "_hed_string", "_org_tag"}
 SPELLING_CALLS = {"get_original_hed_string", "get_as_original"}
@@ -314,6 +314,11 @@ def run(ctx):
     nb = check_no_silent_break(ctx, "R4.6", allv, "Whether a sibling is validated then depends on whether it comes before or "
                                "after this item, i.e. on sibling order.")
     ctx.floor("R4.6", "breaks in reporting loops of the validators", nb, 1)
+    ctx.rule("R4.9", "an issue list that is being accumulated is never plainly re-assigned before it was read")
+    from sa.issues import check_no_overwritten_accumulator
+    nacc = check_no_overwritten_accumulator(ctx, "R4.9", allv, view)
+    ctx.floor("R4.9", "accumulating `+=` statements in the validators", nacc, 60)
+    ctx.ok("R4.9", "%d accumulating statements, none overwritten unread" % nacc, "")
     ctx.rule("R4.3", "the delimiter scan decides on the blank-stripped form of the accumulated text")
     delimiter_scan_rule(ctx, "R4.3")
 
